@@ -75,7 +75,7 @@ pub mod vinto {
     }
     // std: a clone of a path-like value (`&str`, `&Path`, `&PathBuf`, `PathBuf`, `String`) denotes the same path.
     pub broadcast axiom fn axiom_cloned_pview<P: VIntoPathBuf + Clone>(a: P, b: P)
-        ensures #[trigger] cloned::<P>(a, b) ==> a.pview() == b.pview();
+        ensures #[trigger] call_ensures(P::clone, (&a,), b) ==> a.pview() == b.pview();
 }
 pub trait VAsRefPath {
     spec fn pview(&self) -> Seq<char>;
@@ -106,30 +106,34 @@ impl<T: ?Sized + VAsRefPath> VAsRefPath for &T {
 #[verifier::accept_recursive_types(K)]
 #[verifier::accept_recursive_types(V)]
 pub struct BTreeMap<K, V> { _k: core::marker::PhantomData<(K, V)> }
-impl<K: View, V> View for BTreeMap<K, V> {
-    type V = Map<K::V, V>;
-    uninterp spec fn view(&self) -> Map<K::V, V>;
+// what a key IS for the map (`Rc<str>`: its text; `PathBuf`: the path)
+pub trait VKey { type KV; spec fn kview(&self) -> Self::KV; }
+impl VKey for Rc<str> { type KV = Seq<char>; open spec fn kview(&self) -> Seq<char> { self@ } }
+impl VKey for PathBuf { type KV = Seq<char>; open spec fn kview(&self) -> Seq<char> { self@ } }
+impl<K: VKey, V> View for BTreeMap<K, V> {
+    type V = Map<K::KV, V>;
+    uninterp spec fn view(&self) -> Map<K::KV, V>;
 }
-impl<K: View, V> BTreeMap<K, V> {
+impl<K: VKey, V> BTreeMap<K, V> {
     #[verifier::external_body]
-    pub fn new() -> (r: Self) ensures r@ == Map::<K::V, V>::empty() { unimplemented!() }
+    pub fn new() -> (r: Self) ensures r@ == Map::<K::KV, V>::empty() { unimplemented!() }
     #[verifier::external_body]
     pub fn get(&self, k: &K) -> (r: Option<&V>)
         ensures match r {
-            Some(v) => self@.contains_key(k@) && *v == self@[k@],
-            None => !self@.contains_key(k@),
+            Some(v) => self@.contains_key(k.kview()) && *v == self@[k.kview()],
+            None => !self@.contains_key(k.kview()),
         }
     { unimplemented!() }
     #[verifier::external_body]
     pub fn insert(&mut self, k: K, v: V) -> (r: Option<V>)
-        ensures final(self)@ == old(self)@.insert(k@, v)
+        ensures final(self)@ == old(self)@.insert(k.kview(), v)
     { unimplemented!() }
     // std `BTreeMap::entry`: a view into the single slot of `key`; the entry holds the `&mut` borrow of the map, what is
     // done through the entry is what happens to the map.
     #[verifier::external_body]
     pub fn entry<'a>(&'a mut self, key: K) -> (r: btree_map::Entry<'a, K, V>)
         ensures
-            r.key() == key@,
+            r.key() == key.kview(),
             r.cur() == old(self)@,
             r.fin() == final(self)@,
             r.wf(),
@@ -142,36 +146,36 @@ pub mod btree_map {
     pub struct OccupiedEntry<'a, K, V> { pub map: &'a mut BTreeMap<K, V>, pub key: K }
     pub enum Entry<'a, K, V> { Occupied(OccupiedEntry<'a, K, V>), Vacant(VacantEntry<'a, K, V>) }
 
-    impl<'a, K: View, V> Entry<'a, K, V> {
+    impl<'a, K: VKey, V> Entry<'a, K, V> {
         // std's invariant of an entry: it is Occupied iff its map has the key
         pub open spec fn wf(self) -> bool { self is Occupied <==> self.cur().contains_key(self.key()) }
         // the slot's key
-        pub open spec fn key(self) -> K::V {
-            match self { Entry::Occupied(e) => e.key@, Entry::Vacant(e) => e.key@ }
+        pub open spec fn key(self) -> K::KV {
+            match self { Entry::Occupied(e) => e.key.kview(), Entry::Vacant(e) => e.key.kview() }
         }
         // the map as it is while the entry is held
-        pub open spec fn cur(self) -> Map<K::V, V> {
+        pub open spec fn cur(self) -> Map<K::KV, V> {
             match self { Entry::Occupied(e) => (*e.map)@, Entry::Vacant(e) => (*e.map)@ }
         }
         // the map as it is when the borrow held by the entry ends
         #[verifier::prophetic]
-        pub open spec fn fin(self) -> Map<K::V, V> {
+        pub open spec fn fin(self) -> Map<K::KV, V> {
             match self { Entry::Occupied(e) => (*final(e.map))@, Entry::Vacant(e) => (*final(e.map))@ }
         }
     }
-    impl<'a, K: View, V> VacantEntry<'a, K, V> {
+    impl<'a, K: VKey, V> VacantEntry<'a, K, V> {
         // std `VacantEntry::insert` (its result, a `&mut V` into the map, is not modelled: the callers drop it)
         #[verifier::external_body]
         pub fn insert(self, v: V)
-            ensures final(self.map)@ == old(self.map)@.insert(self.key@, v)
+            ensures final(self.map)@ == old(self.map)@.insert(self.key.kview(), v)
         { unimplemented!() }
     }
-    impl<'a, K: View, V> OccupiedEntry<'a, K, V> {
-        pub open spec fn cur(self) -> Map<K::V, V> { (*self.map)@ }
+    impl<'a, K: VKey, V> OccupiedEntry<'a, K, V> {
+        pub open spec fn cur(self) -> Map<K::KV, V> { (*self.map)@ }
         // std `OccupiedEntry::get`
         #[verifier::external_body]
         pub fn get(&self) -> (r: &V)
-            ensures self.cur().contains_key(self.key@), *r == self.cur()[self.key@]
+            ensures self.cur().contains_key(self.key.kview()), *r == self.cur()[self.key.kview()]
         { unimplemented!() }
     }
 }
@@ -236,4 +240,15 @@ pub mod std_fs {
     pub fn read_to_string(p: &PathBuf) -> (r: Result<String, IoError>)
         ensures match r { Ok(s) => fs_text(p@) == Some(s@), Err(_) => fs_text(p@) is None }
     { unimplemented!() }
+}
+
+// std: cloning an Rc is a pointer copy. vstd states `Option<&T>::cloned` through `cloned(a, b)`; these axioms say what
+// `cloned` is for the Rc types the caches hold. Used function-locally (`broadcast use` in the body) only.
+pub mod clax {
+    use super::*;
+    pub broadcast axiom fn axiom_cloned_rc_value(a: Rc<Value>, b: Rc<Value>)
+        ensures #[trigger] cloned::<Rc<Value>>(a, b) ==> a == b;
+    pub broadcast axiom fn axiom_cloned_rcstr(a: Rc<str>, b: Rc<str>)
+        ensures #[trigger] cloned::<Rc<str>>(a, b) ==> a == b;
+    pub broadcast group group_clone_axioms { axiom_cloned_rc_value, axiom_cloned_rcstr, }
 }
